@@ -287,7 +287,31 @@ func drain(iter gojq.Iter, point func(string)) []string {
 type scenario struct {
 	key   string
 	progs []int  // one per goroutine
-	mode  string // code+input, code, query+input, input, var
+	mode  string // code+input, code, query+input, input, var, modules
+}
+
+// programs that reach the module loader while they RUN (modulemeta), compiled with the file-system loader
+var modulePrograms = []string{
+	`"m0" | modulemeta | .defs`, `[("m0", "m1", "m2") | modulemeta | .defs | length]`, `[range(8) | "m\(.)" | modulemeta | .deps | length]`, `import "m1" as a; [a::f, ("m2" | modulemeta | .defs)]`,
+	`include "m3"; [f, ("m3", "m4" | modulemeta | .name?)]`, `import "d" as $d; [$d, ("m5" | modulemeta | .defs[0])]`, `[("m7", "m6", "m7") | modulemeta | .defs] | unique | length`,
+}
+
+var moduleDir string
+
+func setupModules() {
+	d, err := os.MkdirTemp("", "c06h-mods-")
+	if err != nil {
+		panic(err)
+	}
+	moduleDir = d
+	for i := 0; i < 8; i++ {
+		imp := ""
+		if i < 7 {
+			imp = fmt.Sprintf("import \"m%d\" as x; ", i+1) // a chain, not a cycle
+		}
+		os.WriteFile(fmt.Sprintf("%s/m%d.jq", d, i), []byte(fmt.Sprintf("module {name: \"m%d\"}; %sdef f: %d; def g(a): a;", i, imp, i)), 0o644)
+	}
+	os.WriteFile(d+"/d.json", []byte(`{"a":[1,2]} 3`), 0o644)
 }
 
 func scenarios(tier string) []scenario {
@@ -310,6 +334,12 @@ func scenarios(tier string) []scenario {
 			}
 		}
 	}
+	for i := range modulePrograms {
+		out = append(out, scenario{fmt.Sprintf("G2 modules m%d", i), []int{i, i}, "modules"}, scenario{fmt.Sprintf("G3 modules m%d", i), []int{i, i, i}, "modules"})
+		for j := i + 1; j < len(modulePrograms); j++ {
+			out = append(out, scenario{fmt.Sprintf("G2 modules m%d m%d", i, j), []int{i, j}, "modules"})
+		}
+	}
 	if tier == "thorough" {
 		for i := range programs {
 			out = append(out, scenario{fmt.Sprintf("G3 query+input p%d", i), []int{i, i, i}, "query+input"})
@@ -330,10 +360,34 @@ func (sc scenario) build(free bool) ([]func(), func(x execution) string) {
 	shared := parseJSON(rootJSON)
 	outputs := make([][]string, n)
 	want := make([][]string, n)
+	bodies := make([]func(), n)
+	if sc.mode == "modules" {
+		// one loader shared by the Codes (as the command does); same program: one shared Code
+		loader := gojq.NewModuleLoader([]string{moduleDir})
+		codes := map[int]*gojq.Code{}
+		for t, pi := range sc.progs {
+			want[t] = drain(mustCompile(mustParse(modulePrograms[pi]), gojq.WithModuleLoader(gojq.NewModuleLoader([]string{moduleDir}))).Run(nil), func(string) {})
+			if codes[pi] == nil {
+				codes[pi] = mustCompile(mustParse(modulePrograms[pi]), gojq.WithModuleLoader(loader))
+			}
+			t, code := t, codes[pi]
+			bodies[t] = func() { outputs[t] = drain(code.Run(nil), point) }
+		}
+		return bodies, func(x execution) string {
+			if x.deadlock {
+				return "deadlock"
+			}
+			for t := range outputs {
+				if strings.Join(outputs[t], "\n") != strings.Join(want[t], "\n") {
+					return fmt.Sprintf("goroutine %d yields %v, alone it yields %v", t, outputs[t], want[t])
+				}
+			}
+			return ""
+		}
+	}
 	for t, pi := range sc.progs {
 		want[t] = drain(mustCompile(mustParse(programs[pi])).Run(parseJSON(rootJSON)), func(string) {})
 	}
-	bodies := make([]func(), n)
 	switch sc.mode {
 	case "code+input", "code":
 		code := mustCompile(mustParse(programs[sc.progs[0]]))
@@ -478,6 +532,8 @@ func main() {
 		logPos = int64(len(b))
 		return s
 	}
+	setupModules()
+	defer os.RemoveAll(moduleDir)
 	scs := scenarios(*tier)
 	for i, sc := range scs {
 		if *only != "" && sc.key != *only {
@@ -488,7 +544,11 @@ func main() {
 		}
 		var progs []string
 		for _, pi := range sc.progs {
-			progs = append(progs, programs[pi])
+			if sc.mode == "modules" {
+				progs = append(progs, modulePrograms[pi])
+			} else {
+				progs = append(progs, programs[pi])
+			}
 		}
 		emit(record{T: "begin", Key: sc.key})
 		rec := record{T: "scenario", Key: sc.key, Progs: progs}
